@@ -285,6 +285,9 @@ package bpmn
 //@   loop 1 for
 //@     invariant (locked ==> held(mu(tracker.lock)) == 2) && (!locked ==> held(mu(tracker.lock)) == 0)
 //@     invariant count(Call, code("tracing|ITracer.Unsubscribe")) == old(count(Call, code("tracing|ITracer.Unsubscribe")))
+//@     invariant tracker.traces == old(tracker.traces)
+//@     iter ensures [a-closed-subscription-does-not-keep-the-tracker-turning @C07]
+//@       !(isRecv(ev(old(evlen))) && evch(ev(old(evlen))) == tracker.traces && !recvok(ev(old(evlen))))
 
 // ---------------------------------------------------------------------------
 // activity.go: results of an answered task (C08): exactly the declared names that the answer carries
